@@ -12,6 +12,14 @@ import Gzx.Proofs.DMIlv2
 import Gzx.Proofs.DMFinder
 import Gzx.Proofs.DMBytes
 import Gzx.Proofs.DMGF
+import Gzx.Proofs.DMRS
+import Gzx.Proofs.DMEncIlv
+import Gzx.Proofs.DMFrame
+import Gzx.Proofs.DMFrameA
+import Gzx.Proofs.DMFrameB
+import Gzx.Proofs.DMFrameC
+import Gzx.Proofs.DMFrameD
+import Gzx.Model.DMWriter
 import Gzx.Proofs.DMSizeA
 import Gzx.Proofs.DMSizeB
 import Gzx.Proofs.DMSizeC
@@ -301,6 +309,132 @@ theorem decoder_inverts_reference_symbol : ∀ p ∈ table7.zipIdx, ∀ d : List
   refine ⟨?_, ?_, hilv.1, hilv.2⟩
   · exact extract_inverts_framing p hp _ (DMProofs.mappingBits_size _ _ _)
   · exact read_place_inv p.1 hs (p.2 + 1) _ hcwlen hcwb
+
+/-! ## the ENCODER model equals the reference (round 2) -/
+
+/-- "library ECC = standard ECC" as a theorem about the model: the modelled ErrorCorrection_EncodeECC200 — block
+    extraction by stride, createECCBlock per block with the table multiplication, error codewords written by
+    stride from the repaired start offset `(b + B - cap mod B) mod B` (D17) — run with the standard's factor table
+    (= the regenerated Go table: `Obligations.C08.gen_factors_eq`) returns the reference codeword sequence, for
+    every row of Table 7 (144x144 included) and EVERY byte vector of the symbol's capacity. -/
+theorem encodeECC200_eq_reference : ∀ s ∈ table7, ∀ d : List Nat, d.length = s.nData → (∀ x ∈ d, x < 256) →
+    DMEnc.encodeECC200 parityLengths factorTable d (DMEnc.ofSym s) = .ok (codewords s d) := by
+  intro s hs d hd hb
+  have h := DMProofs.encCheck_all
+  rw [List.all_eq_true] at h
+  exact DMProofs.encodeECC200_eq_codewords s (h s hs) d hd hb
+
+theorem all_sizes_frame_checked : ∀ s ∈ table7, DMProofs.frameCheck s = true := by
+  intro s hs
+  simp only [table7, List.mem_cons, List.mem_nil_iff, or_false] at hs
+  rcases hs with rfl | rfl | rfl | rfl | rfl | rfl | rfl | rfl | rfl | rfl | rfl | rfl | rfl | rfl | rfl | rfl | rfl | rfl | rfl | rfl | rfl | rfl | rfl | rfl | rfl | rfl | rfl | rfl | rfl | rfl
+  · exact DMProofs.frame_10x10
+  · exact DMProofs.frame_12x12
+  · exact DMProofs.frame_14x14
+  · exact DMProofs.frame_16x16
+  · exact DMProofs.frame_18x18
+  · exact DMProofs.frame_20x20
+  · exact DMProofs.frame_22x22
+  · exact DMProofs.frame_24x24
+  · exact DMProofs.frame_26x26
+  · exact DMProofs.frame_32x32
+  · exact DMProofs.frame_36x36
+  · exact DMProofs.frame_40x40
+  · exact DMProofs.frame_44x44
+  · exact DMProofs.frame_48x48
+  · exact DMProofs.frame_52x52
+  · exact DMProofs.frame_64x64
+  · exact DMProofs.frame_72x72
+  · exact DMProofs.frame_80x80
+  · exact DMProofs.frame_88x88
+  · exact DMProofs.frame_96x96
+  · exact DMProofs.frame_104x104
+  · exact DMProofs.frame_120x120
+  · exact DMProofs.frame_132x132
+  · exact DMProofs.frame_144x144
+  · exact DMProofs.frame_8x18
+  · exact DMProofs.frame_8x32
+  · exact DMProofs.frame_12x26
+  · exact DMProofs.frame_12x36
+  · exact DMProofs.frame_16x36
+  · exact DMProofs.frame_16x48
+
+/-- clause "L-shaped finder and alternating clock tracks of every data region", encoder side: the modelled
+    encodeLowLevel (row loop of datamatrix_writer.go, 0x0 request) applied to ANY mapping matrix `m` is the
+    reference symbol of `m` (per-module definition `symbolModule`), for each of the 30 sizes -/
+theorem encodeLowLevel_eq_reference_framing : ∀ s ∈ table7, ∀ m : Array Bool,
+    DMEnc.encodeLowLevel (DMEnc.ofSym s) (fun x y => m.getD (y * (DMEnc.ofSym s).symbolDataWidth + x) false) =
+      .ok (symbolOfMapping s m) :=
+  fun s hs m => DMProofs.encodeLowLevel_eq_reference s (all_sizes_frame_checked s hs) m
+
+theorem ofSym_mapping_size : ∀ s ∈ table7,
+    (DMEnc.ofSym s).symbolDataHeight = s.mapRows ∧ (DMEnc.ofSym s).symbolDataWidth = s.mapCols := by
+  decide +kernel
+
+/-- `model_symbol_eq_reference_symbol`: for each of the 30 sizes and EVERY data codeword vector (bytes) of the
+    symbol's capacity, the matrix produced by the Go-mirroring encoder model (EncodeECC200 → placement →
+    encodeLowLevel, i.e. steps 2-4 of DataMatrixWriter.Encode) IS the reference matrix `symbolBits s d`. -/
+theorem model_symbol_eq_reference_symbol : ∀ s ∈ table7, ∀ d : List Nat, d.length = s.nData →
+    (∀ x ∈ d, x < 256) →
+    DMEnc.encodeSymbol parityLengths factorTable d (DMEnc.ofSym s) = .ok (symbolBits s d) := by
+  intro s hs d hd hb
+  unfold DMEnc.encodeSymbol
+  rw [encodeECC200_eq_reference s hs d hd hb]
+  simp only
+  rw [encodeLowLevel_eq_reference_framing s hs]
+  obtain ⟨h1, h2⟩ := ofSym_mapping_size s hs
+  rw [h1, h2]
+  rfl
+
+/-- encoder model followed by decoder model is the identity on data codewords: the low-level decoder applied to
+    the symbol the encoder model produces for `d` recovers `d` (30 sizes, every byte vector) -/
+theorem decoder_inverts_model_symbol : ∀ p ∈ table7.zipIdx, ∀ d : List Nat, d.length = p.1.nData →
+    (∀ x ∈ d, x < 256) →
+    ∃ rows m blocks, DMEnc.encodeSymbol parityLengths factorTable d (DMEnc.ofSym p.1) = .ok rows ∧
+      DMDec.newBitMatrixParser DMDec.versions ⟨p.1.cols, p.1.rows, rows.flatten.toArray⟩ =
+        .ok (DMDec.ofSym (p.2 + 1) p.1, m) ∧
+      DMDec.readCodewords (DMDec.ofSym (p.2 + 1) p.1) m = .ok (codewords p.1 d) ∧
+      DMDec.getDataBlocks (codewords p.1 d) (DMDec.ofSym (p.2 + 1) p.1) = .ok blocks ∧
+      DMDec.resultBytes blocks = .ok d := by
+  intro p hp d hd hb
+  have h := decoder_inverts_reference_symbol p hp d hd hb
+  exact ⟨_, _, _, model_symbol_eq_reference_symbol p.1 (zipIdx_mem_table7 p hp) d hd hb, h.1, h.2.1, h.2.2.1, h.2.2.2⟩
+
+/-! ## link to C04 (Reed-Solomon over GF(256)/0x12D) -/
+
+/-- the reference multiplication is C04's reference product `pmod 0x12D (clmul a b)` on bytes
+    (C04 `gf_mul_eq_clmul_mod` then identifies it with the library's GenericGF.Multiply) -/
+theorem gfMul_is_c04_product (a b : Nat) (ha : a < 256) (hb : b < 256) :
+    gfMul a b = Gzx.Ref.GF.gmul 0x12D a b := DMProofs.gfMul_eq_gmul a b ha hb
+
+/-- per-block parity = C04's Reed-Solomon encoder: `eccBlock n data = Gzx.RS.encode dataMatrix256 data n`
+    for each of the 16 parity lengths and every non-empty byte vector with `|data| + n ≤ 255` -/
+theorem parity_is_rs_encode (n : Nat) (hn : n ∈ parityLengths) (data : List Nat) (hne : data ≠ [])
+    (hd : ∀ x ∈ data, x < 256) (hlen : data.length + n ≤ 255) :
+    Gzx.RS.encode Gzx.GF.dataMatrix256 data n = .ok (eccBlock n data) :=
+  DMProofs.eccBlock_eq_rs_encode n hn data hne hd hlen
+
+/-- every block of every row fits a GF(256) code word and is non-empty -/
+theorem block_shapes_fit : ∀ s ∈ table7, s.blkErr ∈ parityLengths ∧ 0 < s.blocks ∧ s.blocks ≤ s.nData ∧
+    ∀ b, b < s.blocks → 1 ≤ s.dataLen b ∧ s.dataLen b + s.blkErr ≤ 255 := by decide +kernel
+
+/-- for every row, every block `b` of the reference codeword sequence (what `ecc_interleave_inv` says the decoder
+    reconstructs: `blockData s d b ++ blockEcc s d b`) is the code word `Gzx.RS.encodeWord` of its data — so C04's
+    correction theorems (`rs_corrects…`) apply to each de-interleaved Data Matrix block. -/
+theorem blocks_are_rs_codewords : ∀ s ∈ table7, ∀ d : List Nat, d.length = s.nData → (∀ x ∈ d, x < 256) →
+    ∀ b, b < s.blocks →
+      Gzx.RS.encode Gzx.GF.dataMatrix256 (blockData s d b) s.blkErr = .ok (blockEcc s d b) := by
+  intro s hs d hd hb b hbB
+  obtain ⟨hpar, hB, hBn, hfit⟩ := block_shapes_fit s hs
+  obtain ⟨h1, h2⟩ := hfit b hbB
+  have hl : (blockData s d b).length = s.dataLen b := DMProofs.blockData_length s hB d hd b (by omega)
+  apply parity_is_rs_encode s.blkErr hpar
+  · intro hnil
+    rw [hnil] at hl
+    simp at hl
+    omega
+  · exact DMProofs.blockData_bytes s d b hb
+  · rw [hl]; exact h2
 
 /-! ## randomising rules -/
 
